@@ -719,11 +719,11 @@ type vfNode struct {
 	Ext  string `json:"ext"`
 }
 
-// vfChain lists (String, Extension) from the result up to the root; it gives up after 32
+// vfChain lists (String, Extension) from the result up to the root; it gives up after 96
 // steps so that a cyclic Parent() chain is reported rather than looping forever.
 func vfChain(m *MIME) []vfNode {
 	var out []vfNode
-	for i := 0; m != nil && i < 32; i, m = i+1, m.Parent() {
+	for i := 0; m != nil && i < 96; i, m = i+1, m.Parent() {
 		out = append(out, vfNode{m.String(), m.Extension()})
 	}
 	return out
@@ -1082,6 +1082,67 @@ func vfGenTextish(t *rapid.T) string {
 		sb.WriteString(rapid.SampledFrom(vfTextPieces).Draw(t, "piece"))
 	}
 	return sb.String()
+}
+
+// vfBig builds inputs of 70 KB - 2.5 MB whose interesting part is far from the start: scale that
+// the generated cases do not reach. kind selects the family.
+func vfBig(kind string, n int) []byte {
+	var b []byte
+	grow := func(unit string) {
+		for len(b) < n {
+			b = append(b, unit...)
+		}
+	}
+	switch kind {
+	case "html-giant-comment":
+		b = append(b, "<!DOCTYPE html><html><head><!-- "...)
+		grow("comment filler ")
+		b = append(b, " --><meta charset=\"koi8-r\"><title>t</title></head><body>x</body></html>"...)
+	case "html-giant-script":
+		b = append(b, "<html><head><script>var s = '"...)
+		grow("abcdefghij")
+		b = append(b, "';</script><meta charset=\"koi8-r\"></head>"...)
+	case "json-array":
+		b = append(b, "["...)
+		grow("{\"k\":[1,2,3],\"s\":\"text\"},\n")
+		b = append(b, "{\"last\":true}]"...)
+	case "geojson-decider-last":
+		b = append(b, "{\"features\":["...)
+		grow("{\"id\":1,\"p\":[1.5,2.5]},")
+		b = append(b, "{}],\"type\":\"FeatureCollection\"}"...)
+	case "har-decider-last":
+		b = append(b, "{\"pad\":["...)
+		grow("\"0123456789\",")
+		b = append(b, "1],\"log\":{\"version\":\"1.2\"}}"...)
+	case "gltf-decider-last":
+		b = append(b, "{\"buffers\":["...)
+		grow("{\"byteLength\":1024},")
+		b = append(b, "{}],\"asset\":{\"version\":\"2.0\"}}"...)
+	case "csv":
+		b = append(b, "id,name,value\n"...)
+		grow("12,foo bar,3.5\n")
+	case "csv-ragged-late":
+		b = append(b, "id,name,value\n"...)
+		grow("12,foo bar,3.5\n")
+		b = append(b, "13,only two\n14,x,1\n"...)
+	case "ndjson-long-line":
+		b = append(b, "{\"id\":1}\n{\"blob\":\""...)
+		grow("x")
+		b = append(b, "\"}\n{\"id\":3}\n"...)
+	case "ndjson-long-line-then-damage":
+		b = append(b, "{\"id\":1}\n{\"blob\":\""...)
+		grow("x")
+		b = append(b, "\"}\n{\"id\":\n{\"id\":4}\n"...)
+	case "text-latin-tail":
+		grow("plain ascii words ")
+		b = append(b, " caf\xe9 \x93quoted\x94\n"...)
+	case "text-utf8-then-bad":
+		grow("caf\u00e9 words ")
+		b = append(b, " \xff bad\n"...)
+	default:
+		grow("filler ")
+	}
+	return b
 }
 
 // vfGenLong draws a long (3100-9000 byte) text-like input and a limit above the default that
